@@ -104,7 +104,7 @@ func Explore(c Config) *Stats {
 		if rp.Run != c.Name {
 			return st
 		}
-		o1, o2 := c.Run(rp.Ops), c.Run(rp.Ops)
+		o1, o2 := safeRun(c.Run, rp.Ops), safeRun(c.Run, rp.Ops)
 		fmt.Printf("REPLAY %s %v\n", c.Name, c.names(rp.Ops))
 		if o1.Verdict != o2.Verdict || o1.Msg != o2.Msg {
 			rt.HarnessError("replay of %v is not deterministic: %q vs %q", c.names(rp.Ops), o1.Msg, o2.Msg)
@@ -124,7 +124,7 @@ func Explore(c Config) *Stats {
 	}
 	seen := map[[16]byte]struct{}{}
 	// initial state
-	init := c.Run(nil)
+	init := safeRun(c.Run, nil)
 	st.States = 1
 	if init.Verdict == Violation {
 		st.Violations = append(st.Violations, Fail{Msg: init.Msg})
@@ -165,7 +165,7 @@ func Explore(c Config) *Stats {
 							continue
 						}
 						buf = append(append(buf[:0], h...), uint8(op))
-						o := c.Run(buf)
+						o := safeRun(c.Run, buf)
 						r := res{verdict: o.Verdict, cut: o.Cut, finding: o.Finding, msg: o.Msg}
 						if o.Key != "" {
 							r.key, r.hasKey = hkey(o.Key), true
@@ -245,6 +245,17 @@ func Explore(c Config) *Stats {
 	}
 	st.WallS = time.Since(t0).Seconds()
 	return st
+}
+
+// safeRun converts a panic that escapes the harness (the harnesses recover around every call into the
+// code under test; this is the net below them) into a violation instead of a crash of the explorer.
+func safeRun(run func([]uint8) Outcome, h []uint8) (o Outcome) {
+	defer func() {
+		if r := recover(); r != nil {
+			o = Outcome{Verdict: Violation, Msg: fmt.Sprintf("panic: %v", r)}
+		}
+	}()
+	return run(h)
 }
 
 func hkey(s string) (k [16]byte) {
